@@ -46,8 +46,10 @@ def reg(pid, **kw):
 reg("C01",
     gen=lambda seed, tier: (P.gen_damage_programs(G.Rng(seed), N(tier, 60, 600), big=N(tier, 0.02, 0.05)) +
                             P.gen_extraction_programs(G.Rng(seed + 1001), N(tier, 30, 300)) +
-                            P.gen_symlink_chain_programs()),
+                            P.gen_symlink_chain_programs() +
+                            [p for p in P.gen_streamed_readback_programs() if p.name.startswith(("read-exact", "streamed"))]),
     monitors=[lambda rr: (P.mon_symlink_chain(rr) if "chain" in rr.prog.tags else
+                          P.mon_streamed_readback(rr) if "sread" in rr.prog.tags else
                           P.mon_extraction(rr) if "steps" in rr.prog.tags else P.mon_checked_retrieval(rr))],
     nontrivial=lambda rr: has(rr, ("read", "read_hash", "rcheck", "copy", "copy_hash", "hard_link", "hard_link_hash"),
                               ("err integrity", "ok")),
@@ -388,8 +390,9 @@ reg("C13",
          "`faultset`: every call index x error kind x partial-write length incl. 'all bytes written, error reported')")
 
 reg("C07",
-    gen=lambda seed, tier: P.gen_history_programs(G.Rng(seed + 7), N(tier, 20, 100)),
-    monitors=[P.mon_history],
+    gen=lambda seed, tier: (P.gen_history_programs(G.Rng(seed + 7), N(tier, 20, 100)) +
+                            [p for p in P.gen_streamed_readback_programs() if p.name.startswith("read-exact")]),
+    monitors=[lambda rr: P.mon_streamed_readback(rr) if "sread" in rr.prog.tags else P.mon_history(rr)],
     all_flavours=True,
     extra=lambda seed, tier, flavours: merge(
         LG.leg_concurrent(G.Rng(seed + 71), N(tier, 4, 40), flavours, procs=N(tier, 6, 12), ops_per_proc=N(tier, 60, 150)),
